@@ -1713,6 +1713,23 @@ def g_r7b_persist_predicate_table(p: Project, rep: Report):
             return "eqbase"
         return None
 
+    # does TRUE mean `save` (test_cfg_val) or `skip` (a complement such as _is_redundant)?  Decided at the use site: the arm of
+    # the if that stores into the section
+    means_save = None
+    for iff in [x for x in ast.walk(mk0) if isinstance(x, ast.If)]:
+        t_ = iff.test
+        neg_ = isinstance(t_, ast.UnaryOp) and isinstance(t_.op, ast.Not)
+        core_ = t_.operand if neg_ else t_
+        if isinstance(core_, ast.Call) and isinstance(core_.func, ast.Name) and core_.func.id == fn.name:
+            stores_body = any(isinstance(x, ast.Assign) and isinstance(x.targets[0], ast.Subscript) for b_ in iff.body for x in ast.walk(b_))
+            stores_else = any(isinstance(x, ast.Assign) and isinstance(x.targets[0], ast.Subscript) for b_ in iff.orelse for x in ast.walk(b_))
+            if stores_body != stores_else:
+                means_save = (stores_body and not neg_) or (stores_else and neg_)
+            elif not iff.orelse and any(isinstance(x, ast.Continue) for b_ in iff.body for x in ast.walk(b_)):
+                means_save = neg_  # `if skip(..): continue` / `if not save(..): continue`
+    if means_save is None:
+        rep.note("G-R7b undecided: how mk_server_cfg uses the predicate's answer was not recognised")
+        return
     roles = {a: role(a) for a in atoms}
     if any(r is None for r in roles.values()) or len(atoms) > 8 or sorted(set(roles.values())) != ["eqbase", "eqglobal", "isuid", "null"]:
         rep.note(f"G-R7b undecided: tests of the persist predicate not recognised: {[a for a, r in roles.items() if r is None][:3] or sorted(set(roles.values()))}")
@@ -1739,6 +1756,8 @@ def g_r7b_persist_predicate_table(p: Project, rep: Report):
         if got is None:
             continue
         want = (not byrole["null"]) and not (byrole["isuid"] and byrole["eqglobal"]) and not byrole["eqbase"]
+        if not means_save:
+            want = not want
         if got != want:
             wrong.append((dict(byrole), got))
     rep.check("G-R7b", "mk_server_cfg:persist-predicate-table", not wrong, f"the persist predicate answers {wrong[0][1]} for {wrong[0][0]} - expected {not wrong[0][1]} (save iff given, not the global CLIENTUID, and different from the lower sources): e.g. a CLIENTUID passed with --clientuid is never saved and one saved earlier is removed" if wrong else "", gloc(p, fn))
